@@ -120,6 +120,8 @@ class FnInfo(object):
                 out[k] = ("res_context", None)
             elif "SHROUD_array" in self.cparams[k][0]:
                 out[k] = ("res_context", None)
+            elif cn == "SHadow_rv" or (self.result is not None and self.result.kind() == "class") or self.is_ctor:
+                out[k] = ("res_capsule", None)
             else:
                 out[k] = ("res_buf", None)
         return out
@@ -156,10 +158,13 @@ def collect(build):
                 break
         if orig is None:
             orig = f
+        true_orig = orig
         if f._generated in ("has_default_arg",):
             # an arity clone: its own (shortened) parameter list is the C++ call's
             orig = f
-        out[cname] = FnInfo(f, orig, protos[cname], build)
+        fi = FnInfo(f, orig, protos[cname], build)
+        fi.full_params = [CxxParam(a) for a in (true_orig.ast.params or [])]
+        out[cname] = fi
     return out
 
 
@@ -236,12 +241,21 @@ class Stub(object):
             sret = argv[0]
             k = 1
         this = None
-        if info.is_method and not info.is_static and not info.is_ctor:
+        if info.is_dtor:
+            dem = demangle(name)
+            if "::~" not in dem:
+                raise Unsupported("destructor wrapper calls %s" % dem)
+            h.trace.calls.append((name, [], {}, argv[0]))
+            ex.events.append(("dtor", name, argv[0]))
+            return None
+        if info.is_method and not info.is_static:
             this = argv[k]
             k += 1
         params = info.params
-        if len(argv) - k != len(params):
+        nfull = len(getattr(info, "full_params", params))
+        if len(argv) - k != len(params) and len(argv) - k != nfull:
             raise Unsupported("library call %s has %d arguments, declaration has %d" % (name, len(argv) - k, len(params)))
+        # arguments beyond this arity are the C++ defaults the compiler supplied at the call site
         for p, v, t in zip(params, argv[k:], argt[k:]):
             r = Recv()
             kind = p.kind()
@@ -286,8 +300,9 @@ class Stub(object):
         rinfo = {}
         rp = info.result
         if info.is_ctor:
-            raise Unsupported("constructor calls are allocation + constructor symbol")
-        if rp is None:
+            res = None
+            ex.events.append(("ctor", name, this))
+        elif rp is None:
             res = None
         else:
             kind = rp.kind()
@@ -323,9 +338,25 @@ class Stub(object):
                     if rp.nptr and False:
                         pass
             elif kind == "nativep":
-                o = ex.new_obj("lib_result_target", 64, "extern")
+                owner = rp.attrs.get("owner", "library")
+                if ex.e.branch(z3.Bool("lib_returns_null")):
+                    res = NULL
+                else:
+                    o = ex.new_obj("lib_result_target", 64, "heap" if owner == "caller" else "extern",
+                                   "malloc" if owner == "caller" else None)
+                    o.tag["owner"] = owner
+                    res = Ptr(o, 0)
+                rinfo["value"] = res
+            elif kind == "class":
+                owner = rp.attrs.get("owner", "library")
+                if rp.ref:
+                    owner = "library"
+                o = ex.new_obj("lib_instance", 64, "heap" if owner == "caller" else "extern", "new" if owner == "caller" else None)
+                o.tag["owner"] = owner
+                o.tag["class"] = rp.tname
                 res = Ptr(o, 0)
                 rinfo["value"] = res
+                rinfo["owner"] = owner
             else:
                 raise Unsupported("library result of kind %s" % kind)
         h.trace.calls.append((name, recs, rinfo, this))
@@ -351,10 +382,12 @@ class WrapperHarness(object):
     def unsupported_reason(self):
         info = self.info
         for p in info.params + ([info.result] if info.result else []):
-            if p.kind() in ("vector", "struct", "class"):
+            if p.kind() in ("vector", "struct"):
                 return "parameter kind %s" % p.kind()
-        if info.is_ctor or info.is_dtor or info.is_method:
-            return "method"
+            if p.kind() == "class" and not (p.nptr or p.ref) and p is not info.result:
+                return "class argument passed by value"
+            if p.kind() == "class" and p is info.result and not (p.nptr or p.ref):
+                return "class result returned by value"
         return None
 
     def run(self, e):
@@ -403,6 +436,23 @@ class WrapperHarness(object):
                 o = lc.sym_buffer(ex, "context_" + key, ir.size_of(rt_.to), "heap")
                 self.inp[("context", key)] = o
                 argv.append(Ptr(o, 0))
+                continue
+            if role == "res_capsule":
+                o = lc.sym_buffer(ex, "capsule_result", ir.size_of(rt_.to), "heap")
+                self.inp[("capsule", "@result")] = o
+                argv.append(Ptr(o, 0))
+                continue
+            if role == "self" or (role == "arg" and p.kind() == "class"):
+                key = "self" if role == "self" else p.name
+                cap_o = lc.sym_buffer(ex, "capsule_" + key, ir.size_of(rt_.to), "heap")
+                owned = info.is_dtor and role == "self"       # what a destructor wrapper releases was created by operator new
+                inst = ex.new_obj("instance_" + key, 64, "heap" if owned else "extern", "new" if owned else None)
+                inst.tag["class"] = (info.cls.typemap.name if role == "self" else p.tname)
+                idt = z3.BitVec("idtor_" + key, 32)
+                cap_o.cells[0] = (8, Ptr(inst, 0))
+                cap_o.cells[8] = (4, idt)
+                self.inp[("capsule", key)] = (cap_o, inst, idt)
+                argv.append(Ptr(cap_o, 0))
                 continue
             if role == "res_buf":
                 n = lens.get(("len", "@result"))
@@ -472,6 +522,30 @@ class WrapperHarness(object):
         i = z3.BitVec("idx", 64)
         N = self.cap
         bufferify = info.generated in ("arg_to_buffer",)
+        bad_sym = symbol_mismatch(info, sym)
+        if bad_sym:
+            out.append((bad_sym, True))
+        if info.is_dtor:
+            cap = self.inp.get(("capsule", "self"))
+            ok = isinstance(this, Ptr) and cap is not None and this.obj is cap[1]
+            out.append(("the destructor does not run on the object held by the capsule", not ok))
+            if cap is not None:
+                out.append(("the object held by the capsule is not released by the destructor wrapper", bool(cap[1].live)))
+                addr = cap[0].cells.get(0, (0, None))[1]
+                out.append(("the capsule still holds the address of the released object",
+                            not (isinstance(addr, Ptr) and addr.obj is None)))
+            return out
+        if info.is_method and not info.is_static and not info.is_ctor:
+            cap = self.inp.get(("capsule", "self"))
+            ok = isinstance(this, Ptr) and cap is not None and this.obj is cap[1] and conc(this.off) == 0
+            out.append(("'this' is not the object held by the self capsule", not ok))
+        if info.is_ctor:
+            ok = isinstance(this, Ptr) and this.obj is not None and this.obj.alloc == "new" and conc(this.off) == 0
+            out.append(("the constructor does not run on freshly allocated (operator new) storage", not ok))
+            rc = self.inp.get(("capsule", "@result"))
+            if rc is not None:
+                addr = rc.cells.get(0, (0, None))[1]
+                out.append(("constructor: the capsule does not hold the new object", not (isinstance(addr, Ptr) and ok and addr.obj is this.obj)))
         for p, r in zip(info.params, recs):
             key = p.name
             kind = p.kind()
@@ -589,6 +663,26 @@ class WrapperHarness(object):
                                     z3.And(z3.ULT(i, want), z3.Select(addr.obj.arr, bv(addr.off) + i) != z3.Select(rinfo["arr"], i))))
                     else:
                         out.append(("allocatable result: address is NULL although the string is not empty", want != 0))
+            elif kind == "nativep" and ctx is None:
+                a, b = self.ret, rinfo.get("value")
+                same = isinstance(a, Ptr) and isinstance(b, Ptr) and a.obj is b.obj and (a.obj is None or conc(a.off) == conc(b.off))
+                out.append(("the C caller does not receive the pointer the library returned", not same))
+            elif kind == "class":
+                rc = self.inp.get(("capsule", "@result"))
+                if rc is not None:
+                    addr = rc.cells.get(0, (0, None))[1]
+                    b = rinfo.get("value")
+                    out.append(("class result: the capsule does not hold the object the library returned",
+                                not (isinstance(addr, Ptr) and isinstance(b, Ptr) and addr.obj is b.obj)))
+                    idt = rc.cells.get(8, (0, None))[1]
+                    if idt is None or isinstance(idt, Ptr):
+                        out.append(("class result: the capsule's idtor is not set", True))
+                    else:
+                        if rinfo.get("owner") == "caller":
+                            out.append(("class result owned by the caller has idtor 0 (it would never be released)", idt == 0))
+                        else:
+                            out.append(("class result owned by the library has a non-zero idtor (the wrapper would free library memory)", idt != 0))
+                        self.handoff = (lc_conc(idt), rinfo.get("owner"), rp.tname)
             elif kind in ("charp",) and rb is None and ctx is None:
                 # plain C API returning const char *
                 if rinfo.get("null"):
@@ -610,7 +704,7 @@ class WrapperHarness(object):
         out = []
         handed = set()
         for (kind, key), o in list(self.inp.items()):
-            if kind == "context":
+            if kind == "context" or (kind == "capsule" and key == "@result"):
                 for off, (nb, val) in o.cells.items():
                     if isinstance(val, Ptr) and val.obj is not None:
                         handed.add(val.obj.id)
@@ -692,6 +786,76 @@ class WrapperHarness(object):
         if self.twin:
             return {"cls": cls, "violation": self.witness(e.model(), "reachability twin"), "vkey": "twin"}
         return {"cls": cls, "sample": self.witness(e.model(), None), "counters": {"assertions": nq}}
+
+
+def lc_conc(v):
+    c = conc(v)
+    return c
+
+
+_DEMANGLE = {}
+
+
+def demangle(sym):
+    if sym not in _DEMANGLE:
+        import subprocess
+        try:
+            out = subprocess.run(["llvm-cxxfilt-14", sym], stdout=subprocess.PIPE, universal_newlines=True).stdout.strip()
+        except OSError:
+            out = subprocess.run(["c++filt", sym], stdout=subprocess.PIPE, universal_newlines=True).stdout.strip()
+        _DEMANGLE[sym] = out
+    return _DEMANGLE[sym]
+
+
+NATIVE_TEXT = {"int", "long", "double", "float", "bool", "char", "short", "unsigned int", "unsigned long", "long long",
+               "unsigned short", "unsigned char", "signed char", "unsigned long long"}
+
+
+def split_params(text):
+    out, depth, cur = [], 0, ""
+    for ch in text:
+        if ch in "<(":
+            depth += 1
+        elif ch in ">)":
+            depth -= 1
+        if ch == "," and depth == 0:
+            out.append(cur.strip())
+            cur = ""
+        else:
+            cur += ch
+    if cur.strip():
+        out.append(cur.strip())
+    return out
+
+
+def symbol_mismatch(info, sym):
+    """Is the called symbol the declared entry point (name, scope, arity, parameter types, const-ness)?"""
+    dem = demangle(sym)
+    if dem == sym and not sym.startswith("_Z"):
+        # a C library function: plain name
+        return None if sym == info.cxx_name else "the wrapper calls %s, the declaration names %s" % (sym, info.cxx_name)
+    m = re.match(r"^(.*?)\((.*)\)( const)?$", dem)
+    if not m:
+        return "cannot read callee %s" % dem
+    qname, ptext, cst = m.group(1), m.group(2), bool(m.group(3))
+    qname = re.sub(r"\[abi:\w+\]", "", qname)
+    if info.is_ctor or info.is_dtor:
+        return None
+    if qname.split("::")[-1] != info.cxx_name:
+        return "the wrapper calls %s, the declaration names %s" % (dem, info.cxx_name)
+    if info.is_method and info.cls is not None and not qname.startswith(info.cls.typemap.name + "::"):
+        return "the wrapper calls %s, not a member of %s" % (dem, info.cls.typemap.name)
+    params = [] if ptext in ("", "void") else split_params(ptext)
+    full = getattr(info, "full_params", info.params)
+    if len(params) != len(full):
+        return "the wrapper calls %s (%d parameters), the declared function has %d" % (dem, len(params), len(full))
+    if cst != info.func_const:
+        return "the wrapper calls %s, the declaration is %sconst" % (dem, "" if info.func_const else "not ")
+    for p, got in zip(full, params):
+        g = got.replace(" const", "").replace("const ", "").strip()
+        if p.kind() == "scalar" and p.cxx_type in NATIVE_TEXT and g != p.cxx_type:
+            return "parameter '%s' of the called overload %s is %s, declared %s" % (p.name, dem, got, p.cxx_type)
+    return None
 
 
 def first_nul_bounded(arr, n, cap):
